@@ -1,8 +1,8 @@
 package props
 
 import (
-	"go/types"
 	"go/token"
+	"go/types"
 	"strings"
 
 	"golang.org/x/tools/go/ssa"
@@ -17,6 +17,7 @@ func init() {
 			ID: "C05",
 			Explanation: "The property is mainly about wall-clock bounds and kill behaviour, which no static argument here can reach; what is decided is the structural chain without which no timeout can work: the invoke timer waits for the configured function timeout and reports ErrInvokeTimeout; the timeout case resets with reason Timeout and the fixed 2000 ms allowance and returns the timeout error only after the invoke goroutine has wound up; a reset cancels the flows strictly before it waits for the handler, every wait a handler can reach is cancellable (or reasoned), the cancel reaches every barrier and is re-armed after each reset; " +
 				"the reset's answer follows the teardown (reset-done is signalled only after the sandbox reset returned, which runs shutdown on every path and then clears the state); every kill request carries a fresh deadline (an expired one makes the supervisor refuse to signal); the next invocation starts fresh processes (generation bumped on every reset and init, initDone cleared); the front end answers the timeout with 'Task timed out after N.00 seconds'. " +
+				"Added after the blind rounds: one body per request path; the watchdog does not depend on the server mutex; the whole process group is killed; every response can be cancelled by a reset; the statuses of the front end's switch are reachable (R-ERRID). " +
 				"NOT decided: 'no later than timeout + allowance', the response-versus-expiry race sweep, that Kill really kills (C19 covers the supervisor's structure).",
 			RuleText:    "one obligation per link of the timeout -> reset -> teardown -> fresh-start chain",
 			Assumptions: trusted,
